@@ -16,7 +16,7 @@ func init() { props["C25"] = runC25 }
 // C25: for every input the full parser accepts, fastscan.Scan returns no error, the same
 // package and the same imports (path, public, weak, option) in the same order.
 func runC25(h *hx.H) {
-	h.Rule = "inputs: every arrangement of <=2 (thorough <=3) non-default trivia values in the slots of two header skeletons (syntax, package, three imports incl. public/weak, an option whose message literal contains the words import/package, strings with escapes and quotes, `<`/`>` literals, a message using map<>), every token string of <=4 (thorough <=5) tokens over a header alphabet, every import-path literal spelling over an escape alphabet (incl. adjacent string concatenation), every corpus file and its CRLF/BOM variants and single-token mutants; for every input the full parser accepts: fastscan.Scan error == nil and package/imports equal those in the AST; non-trivial = accepted input with >=1 import or a package"
+	h.Rule = "inputs: every arrangement of <=2 (thorough <=3) non-default trivia values in the slots of two header skeletons (syntax, package, three imports incl. public/weak, an option whose message literal contains the words import/package, strings with escapes and quotes, `<`/`>` literals, a message using map<>), every token string of <=4 (thorough <=5) tokens over a header alphabet, every block and line comment body of <=4 (thorough 5) characters over {*, /, space, a, LF, quotes} placed before and between the statements, every import-path literal spelling over an escape alphabet (incl. adjacent string concatenation), every corpus file and its CRLF/BOM variants and single-token mutants; for every input the full parser accepts: fastscan.Scan error == nil and package/imports equal those in the AST; non-trivial = accepted input with >=1 import or a package"
 	check := func(src string) {
 		idx, run := h.NextN()
 		if !run {
@@ -38,6 +38,22 @@ func runC25(h *hx.H) {
 	for _, sk := range skels {
 		forEachLayout(sk, layoutTrivia, dev, win, check)
 	}
+	// every comment body of <=4 (thorough 5) characters over the delimiter alphabet, as a block and
+	// as a line comment, in front of and between the statements the scanner has to find
+	nc := 4
+	if h.Thorough() {
+		nc = 5
+	}
+	forEachByteString([]byte("*/ a\n\"'"), nc, func(b []byte) {
+		body := string(b)
+		// a body that contains the terminator simply ends the comment early; both parsers see the same text
+		check("/*" + body + "*/package p; import \"a.proto\";")
+		check("package p; /*" + body + "*/ import \"a.proto\"; /*" + body + "*/ import public 'b.proto';")
+		if !strings.Contains(body, "\n") {
+			check("//" + body + "\npackage p; import \"a.proto\";")
+			check("package p; //" + body + "\nimport \"a.proto\";")
+		}
+	})
 	alpha := []string{"syntax", "=", "\"proto3\"", ";", "package", "import", "public", "weak", "\"a.proto\"", "foo", ".", "option", "{", "}", "message", "'b'", "<", ">", "(", ")", "[", "]", "3", "option", "-", ","}
 	nTok := 4
 	if h.Thorough() {
